@@ -6,8 +6,7 @@ only if every configured mock was generated and written.
    can be written at x first/last package (sorted order) x alone/among valid packages; the code-shaped layer says in
    which phase of Run() the class is detected (load, init, parse, select, resolve, collect, a stage of the per-file
    pipeline, the missing-interface accounting), the contract says exit != 0 for each and "exit = 0 only if every
-   configured mock written".  ImplMeetsContract is checked; the known deviation D16 (a package that does not exist is
-   skipped) is a named disjunct whose predicted violations are replayed.
+   configured mock written".  ImplMeetsContract is checked (no known deviation at present: D16 was repaired).
 2. Every exported world (with the contract's expectation) is materialised and run through the binary built from the
    working tree: exit status, diagnostic, Go panic scan, configured mocks present.  The model's prediction (BEH) for
    the observed file order is compared too -- a disagreement that the contract accepts is drift.
@@ -69,7 +68,7 @@ def materialise(d, files, conf, gomod=None):
     (d / "go.sum").write_bytes((REPO / "go.sum").read_bytes())
     write_files(d, files)
     if conf is not None:
-        (d / ".mockery.yml").write_text(json.dumps(conf, indent=1))
+        (d / ".mockery.yml").write_text(conf if isinstance(conf, str) else json.dumps(conf, indent=1))
 
 
 DIAG_SKIP = re.compile(r" (INF|DBG|TRC|WRN) ")
@@ -513,7 +512,7 @@ def build_valid(case):
     gomod = None
     expected = [("mocks/ps/mocks.go", "MockAnchor")]
     named = ["Anchor"]
-    if w["kind"] == "decls" or w["kind"] == "gomod":
+    if w["kind"] in ("decls", "gomod", "cfgshape"):
         body, imports = [], set()
         for i, k in enumerate(w["decls"], start=1):
             txt, extra, imps, mock = decl_text(k, i)
@@ -538,6 +537,61 @@ def build_valid(case):
         if w["layout"] == "inpkg":
             conf.update({"dir": "{{.InterfaceDir}}", "filename": "mocks_gen.go", "pkgname": "{{.SrcPackageName}}"})
             expected = [("ps/mocks_gen.go", s) for _, s in expected]
+    if w["kind"] == "cfgshape":
+        # null / empty sections at every level of the configuration file; _anchors.  Both Anchor and T1 stay selected.
+        shape = w["shape"]
+        P = f"{MOD}/ps"
+        both = ["Anchor", "T1"]
+        pk = {"config": {"all": True}}
+        if shape == "package-null":
+            conf["all"] = True
+            pk = None
+        elif shape == "pkg-config-null":
+            conf["all"] = True
+            pk = {"config": None}
+        elif shape == "interfaces-null":
+            pk["interfaces"] = None
+        elif shape == "interfaces-empty":
+            pk["interfaces"] = {}
+        elif shape == "iface-null":
+            pk = {"interfaces": {n: None for n in both}}
+        elif shape == "iface-config-null":
+            pk = {"interfaces": {n: {"config": None} for n in both}}
+        elif shape == "configs-null":
+            pk = {"interfaces": {n: {"configs": None} for n in both}}
+        elif shape == "configs-empty":
+            pk = {"interfaces": {n: {"configs": []} for n in both}}
+        elif shape == "configs-null-entry":
+            pk = {"interfaces": {n: {"configs": [None]} for n in both}}
+        elif shape == "configs-null-entry-among-entries":
+            pk = {"interfaces": {"Anchor": {"configs": [{"structname": "AnchorTwo"}, None]}, "T1": {"config": {}, "configs": [None, {"structname": "TOneTwo"}]}}}
+            expected += [("mocks/ps/mocks.go", "AnchorTwo"), ("mocks/ps/mocks.go", "TOneTwo")]
+        elif shape == "root-template-data-null":
+            conf["template-data"] = None
+        elif shape == "pkg-template-data-null":
+            pk["config"]["template-data"] = None
+        elif shape == "iface-template-data-null":
+            pk = {"interfaces": {n: {"config": {"template-data": None}, "configs": [{"template-data": None}]} for n in both}}
+        elif shape == "anchors-nonempty":
+            conf["_anchors"] = {"common": {"all": False, "dir": "elsewhere"}, "n": 3}
+        elif shape == "anchors-nested":
+            conf["_anchors"] = {"a": [1, {"b": None}, "s"], "c": {"d": {"e": [True]}}}
+            pk["config"]["_anchors"] = {"pkg-level": {"x": 1}}
+        elif shape == "anchors-empty":
+            conf["_anchors"] = {}
+        elif shape == "anchors-null":
+            conf["_anchors"] = None
+        conf["packages"][P] = pk
+        if w["ctx"] == "among":
+            files["pr/r.go"] = "package pr\n\ntype R interface{ Run() error }\n"
+            conf["packages"][f"{MOD}/pr"] = {"config": {"all": True}}
+            expected.append(("mocks/pr/mocks.go", "MockR"))
+        if shape == "yaml-anchor-merge":
+            # real YAML anchors and a merge key, as the documentation of _anchors suggests
+            conf = ("_anchors:\n  common: &common\n    all: true\n  names: &names [a, b]\n"
+                    "dir: \"mocks/{{.SrcPackageName}}\"\nfilename: mocks.go\npkgname: mocks\nbuild-tags: vtag\npackages:\n"
+                    f"  {P}:\n    config:\n      <<: *common\n"
+                    + (f"  {MOD}/pr:\n    config: *common\n" if w["ctx"] == "among" else ""))
     if w["kind"] == "pkgshape":
         shape = w["shape"]
         files.update({
@@ -649,10 +703,10 @@ def run(ctx):
     for lv in ("root", "pkg", "iface", "entry"):
         if not any(c["world"]["fault"]["level"] == lv for c in cases):
             raise MachineryError("vacuous: level never used: " + lv)
-    if not any(b["deviated"] for b in behs) or not any(b["exit"] == 1 and b["written"] for b in behs):
-        raise MachineryError("vacuous: no behaviour with the D16 deviation / no failing behaviour that wrote a file first")
+    if not any(b["exit"] == 1 and b["written"] for b in behs) or not any(b["exit"] == 1 and not b["order"] for b in behs):
+        raise MachineryError("vacuous: no failing behaviour that wrote a file first / none that failed before the per-file loop")
     vk = {k for c in vcases for k in c["world"]["decls"]}
-    if len(vk) < 50 or not any(c.get("has_alias") and c["world"]["select"] == "none" for c in vcases) or not any(c["world"]["kind"] == "gomod" for c in vcases) or not any(c["world"]["kind"] == "pkgshape" for c in vcases):
+    if not any(c["world"]["kind"] == "cfgshape" for c in vcases) or len(vk) < 50 or not any(c.get("has_alias") and c["world"]["select"] == "none" for c in vcases) or not any(c["world"]["kind"] == "gomod" for c in vcases) or not any(c["world"]["kind"] == "pkgshape" for c in vcases):
         raise MachineryError("vacuous: PipelineValid exported too few kinds of valid worlds")
 
     # ---- replay
